@@ -471,4 +471,160 @@ theorem provideDesc_inv {S : Type} [DecidableEq S] (F : Nat → S → S) :
           congr 1
           omega
 
+/-! ### completeness: secrets generated from one seed are always accepted -/
+
+theorem checkLower_complete {S : Type} [DecidableEq S] (F : Nat → S → S) (secret : S) (pos : Nat) :
+    ∀ (l : List (S × Nat)) (k : Nat),
+      (∀ i (hi : i < l.length), i < k → derive F secret pos (l[i]).2 = (l[i]).1) →
+      checkLower F secret pos l k = true
+  | _, 0, _ => by simp [checkLower]
+  | [], _ + 1, _ => by simp [checkLower]
+  | (os, oi) :: rest, k + 1, h => by
+    unfold checkLower
+    have h0 := h 0 (by simp) (by omega)
+    simp only [List.getElem_cons_zero] at h0
+    rw [if_pos h0]
+    apply checkLower_complete F secret pos rest k
+    intro i hi hk
+    have := h (i + 1) (by simpa using hi) (by omega)
+    simpa using this
+
+theorem provide_accepts {S : Type} [DecidableEq S] (F : Nat → S → S) (st : Store S) (idx : Nat) (secret : S)
+    (hpos : place idx ≤ st.length)
+    (hlow : ∀ i (hi : i < st.length), i < place idx → derive F secret (place idx) (st[i]).2 = (st[i]).1) :
+    ∃ st', provide F st idx secret = some st' := by
+  unfold provide
+  dsimp only
+  rw [if_neg (by omega)]
+  rw [checkLower_complete F secret (place idx) st (place idx) hlow]
+  simp only [Bool.not_true, Bool.false_eq_true, ↓reduceIte]
+  split
+  · exact ⟨_, rfl⟩
+  · split <;> exact ⟨_, rfl⟩
+
+theorem two_pow_lt {a b : Nat} (h : a < b) : 2 ^ a < 2 ^ b := Nat.pow_lt_pow_right (by omega) h
+
+/-- under the invariant, slot `i` below the place of the next index holds the index `m - 1 + 2^i` -/
+theorem SInv_lower_slot {S : Type} (F : Nat → S → S) {st : Store S} {sec : Nat → S} {m : Nat}
+    (inv : SInv F st sec m) (hm : 0 < m) (i : Nat) (hi' : i < place (m - 1)) :
+    ∃ os, st[i]? = some (os, m - 1 + 2 ^ i) := by
+  have h48 := place_le (m - 1)
+  have hdvd := place_dvd (m - 1)
+  have hi48 : i < 48 := by omega
+  have d1 : 2 ^ (i + 1) ∣ m - 1 := Nat.dvd_trans (pow_dvd_pow_two (by omega)) hdvd
+  have dj : 2 ^ i ∣ m - 1 + 2 ^ i :=
+    (Nat.dvd_add_right (Nat.dvd_trans (pow_dvd_pow_two (by omega)) hdvd)).mpr (Nat.dvd_refl _)
+  have hpi := two_pow_pos' i
+  have nj : ¬ 2 ^ (i + 1) ∣ m - 1 + 2 ^ i := by
+    intro hd
+    have := (Nat.dvd_add_right d1).mp hd
+    have := Nat.le_of_dvd hpi this
+    rw [two_pow_succ'] at this
+    omega
+  have hplace : place (m - 1 + 2 ^ i) = i := place_unique hi48 dj nj
+  -- the index is in range
+  have hlt : m - 1 + 2 ^ place (m - 1) ≤ N48 := by
+    refine Classical.byContradiction fun hgt => ?_
+    have dN : 2 ^ place (m - 1) ∣ N48 := by rw [N48_eq]; exact pow_dvd_pow_two h48
+    have := inv.mle
+    exact no_multiple_between hdvd dN (by omega) (by omega)
+  have hjN : m - 1 + 2 ^ i < N48 := by have := two_pow_lt hi'; omega
+  obtain ⟨q, os, oi, hq, hcov⟩ := inv.B (m - 1 + 2 ^ i) (by omega) hjN
+  have hP := inv.P q os oi hq
+  have hqi : q = i := by
+    refine Classical.byContradiction fun hne => ?_
+    by_cases hlt' : q < i
+    · have : hi q (m - 1 + 2 ^ i) = m - 1 + 2 ^ i :=
+        hi_of_range (Nat.dvd_trans (pow_dvd_pow_two (by omega)) dj) (Nat.le_refl _) (by have := two_pow_pos' q; omega)
+      rw [this] at hcov
+      rw [← hcov, hplace] at hP
+      omega
+    · have hgt : i + 1 ≤ q := by omega
+      have dq : 2 ^ (i + 1) ∣ oi := by rw [← hcov]; exact Nat.dvd_trans (pow_dvd_pow_two hgt) (hi_dvd q _)
+      have l1 : oi ≤ m - 1 + 2 ^ i := by rw [← hcov]; exact hi_le _ _
+      have : m - 1 + 2 ^ i < m - 1 + 2 ^ (i + 1) := by rw [two_pow_succ']; omega
+      exact no_multiple_between d1 dq (by omega) (by omega)
+  subst hqi
+  have : hi q (m - 1 + 2 ^ q) = m - 1 + 2 ^ q := hi_of_range dj (Nat.le_refl _) (by omega)
+  rw [this] at hcov
+  exact ⟨os, by rw [hcov]; exact hq⟩
+
+/-- **completeness step**: with the store filled from one seed, the next seeded secret is accepted -/
+theorem SInv_accepts {S : Type} [DecidableEq S] (F : Nat → S → S) (seed : S) {st : Store S} {sec : Nat → S} {m : Nat}
+    (inv : SInv F st sec m) (hm : 0 < m) (hsec : ∀ j, m ≤ j → j < N48 → sec j = fromSeed F seed j) :
+    ∃ st', provide F st (m - 1) (fromSeed F seed (m - 1)) = some st' := by
+  have h48 := place_le (m - 1)
+  have hdvd := place_dvd (m - 1)
+  apply provide_accepts
+  · -- every lower slot exists
+    cases hp : place (m - 1) with
+    | zero => omega
+    | succ p =>
+      obtain ⟨os, hs⟩ := SInv_lower_slot F inv hm p (by omega)
+      have := (List.getElem?_eq_some_iff.mp hs).1
+      omega
+  · intro i hil hip
+    obtain ⟨os, hs⟩ := SInv_lower_slot F inv hm i hip
+    obtain ⟨_, he⟩ := List.getElem?_eq_some_iff.mp hs
+    rw [he]
+    simp only
+    have hP := inv.P i os _ hs
+    have di : 2 ^ i ∣ m - 1 + 2 ^ i := by have := place_dvd (m - 1 + 2 ^ i); rw [hP.1] at this; exact this
+    -- the stored secret is the seeded one
+    have hself : hi i (m - 1 + 2 ^ i) = m - 1 + 2 ^ i :=
+      hi_of_range di (Nat.le_refl _) (by have := two_pow_pos' i; omega)
+    have hA := inv.A i os _ (m - 1 + 2 ^ i) hs hP.2.1 hP.2.2 hself
+    have hown : derive F os i (m - 1 + 2 ^ i) = os := by
+      have := derive_self F os (m - 1 + 2 ^ i)
+      rw [hP.1] at this; exact this
+    rw [hown] at hA
+    rw [hA, hsec _ hP.2.1 hP.2.2]
+    -- tree law
+    unfold fromSeed
+    rw [derive_hi F (m - 1 + 2 ^ i) (place (m - 1)) 48 seed h48]
+    have : hi (place (m - 1)) (m - 1 + 2 ^ i) = m - 1 :=
+      hi_of_range hdvd (by omega) (by have := two_pow_lt hip; omega)
+    rw [this]
+
+/-- the secrets a peer holding `seed` reveals for the indices `m-1, m-2, …` (`k` of them) -/
+def seedDesc {S : Type} (F : Nat → S → S) (seed : S) : Nat → Nat → List S
+  | _, 0 => []
+  | 0, _ + 1 => []
+  | m + 1, k + 1 => fromSeed F seed m :: seedDesc F seed m k
+
+theorem seedDesc_length {S : Type} (F : Nat → S → S) (seed : S) : ∀ m k, k ≤ m → (seedDesc F seed m k).length = k
+  | m, 0, _ => by cases m <;> simp [seedDesc]
+  | 0, k + 1, h => by omega
+  | m + 1, k + 1, h => by simp [seedDesc, seedDesc_length F seed m k (by omega)]
+
+theorem seedDesc_get {S : Type} (F : Nat → S → S) (seed : S) :
+    ∀ m k i (hi : i < (seedDesc F seed m k).length), (seedDesc F seed m k)[i] = fromSeed F seed (m - 1 - i)
+  | _, 0, i, hi => by simp [seedDesc] at hi
+  | 0, k + 1, i, hi => by simp [seedDesc] at hi
+  | m + 1, k + 1, 0, _ => by simp [seedDesc]
+  | m + 1, k + 1, i + 1, hi => by
+    simp only [seedDesc, List.getElem_cons_succ]
+    rw [seedDesc_get F seed m k i (by simpa [seedDesc] using hi)]
+    congr 1
+    omega
+
+theorem provideDesc_complete {S : Type} [DecidableEq S] (F : Nat → S → S) (seed : S) :
+    ∀ (k m : Nat) (st : Store S) (sec : Nat → S), SInv F st sec m →
+      (∀ j, m ≤ j → j < N48 → sec j = fromSeed F seed j) → k ≤ m →
+      ∃ st', provideDesc F st m (seedDesc F seed m k) = some st'
+  | 0, m, st, sec, _, _, _ => ⟨st, by simp [seedDesc, provideDesc]⟩
+  | k + 1, 0, st, sec, _, _, h => by omega
+  | k + 1, m + 1, st, sec, inv, hsec, hk => by
+    obtain ⟨st1, h1⟩ := SInv_accepts F seed inv (Nat.succ_pos m) hsec
+    simp only [Nat.add_sub_cancel] at h1
+    have step := SInv_step F inv (Nat.succ_pos m) (fromSeed F seed m) (by simpa using h1)
+    simp only [Nat.add_sub_cancel] at step
+    simp only [seedDesc, provideDesc, h1]
+    apply provideDesc_complete F seed k m st1 _ step ?_ (by omega)
+    intro j hj1 hj2
+    by_cases hjm : j = m
+    · simp [hjm]
+    · simp only [hjm, ↓reduceIte]
+      exact hsec j (by omega) hj2
+
 end VlsModel.Secrets
